@@ -90,10 +90,20 @@ pub struct EdgeCase {
 
 /// An owned Array1 holding exactly `vals` (logically), produced the requested way.
 fn owned_array1<T: HEl>(vals: &[T], mode: u8) -> Array1<T> {
+    // a filler value that is NOT one of the input values (so that leaking it is visible)
+    let foreign = || -> T {
+        for k in 0..1000i64 {
+            let f = T::from_i(100 + k);
+            if !vals.contains(&f) {
+                return f;
+            }
+        }
+        T::from_i(0)
+    };
     match mode % 4 {
         1 if !vals.is_empty() => {
             // interleave with foreign values, then keep every second element in place
-            let filler = vals[0].clone();
+            let filler = foreign();
             let mut buf = Vec::with_capacity(2 * vals.len());
             for v in vals {
                 buf.push(v.clone());
@@ -111,7 +121,7 @@ fn owned_array1<T: HEl>(vals: &[T], mode: u8) -> Array1<T> {
             a
         }
         3 if !vals.is_empty() => {
-            let filler = vals[0].clone();
+            let filler = foreign();
             let mut buf = vec![filler.clone()];
             buf.extend(vals.iter().cloned());
             buf.push(filler);
